@@ -21,6 +21,7 @@ import (
 	"context"
 	"database/sql/driver"
 	"fmt"
+	"strconv"
 	"strings"
 
 	"github.com/arana-db/parser/ast"
@@ -538,23 +539,30 @@ func (i *insertExecutor) autoGeneratePks(execCtx *types.ExecContext, autoColumnN
 			return nil, err
 		}
 
+		defer stmt.Close()
+
 		rows, err := stmt.Query(nil)
 		if err != nil {
 			log.Errorf("stmt query: %+v", err)
 			return nil, err
 		}
+		defer rows.Close()
 
-		if len(rows.Columns()) > 0 {
-			var curStep []driver.Value
-			if err := rows.Next(curStep); err != nil {
-				return nil, err
-			}
-
-			if curStepInt, ok := curStep[0].(int64); ok {
-				step = curStepInt
-			}
-		} else {
+		// one row: Variable_name, Value
+		if len(rows.Columns()) < 2 {
 			return nil, fmt.Errorf("query is empty")
+		}
+		curStep := make([]driver.Value, len(rows.Columns()))
+		if err := rows.Next(curStep); err != nil {
+			return nil, err
+		}
+		switch value := curStep[1].(type) {
+		case int64:
+			step = value
+		case []byte:
+			step, _ = strconv.ParseInt(string(value), 10, 64)
+		case string:
+			step, _ = strconv.ParseInt(value, 10, 64)
 		}
 	}
 
